@@ -989,6 +989,11 @@ def torch_gen_case(ctx, I, idx):
         utts.append(dict(id="%s%d" % (r.choice(["utt", "a.b-", "X_"]), k), shape=shape, nchan=nchan, n=n, kind=kind,
                          sig_seed=r.randrange(1 << 30), amp=r.choice([30, 300, 20000]), space_in_path=sp,
                          missing=r.random() < 0.03))
+    if no_comp and multi:
+        # a snippet with fewer samples than channels (channels first: (5, 4), (3, 2)): still one column of samples per channel
+        utts[0].update(shape="2d", nchan=r.choice([3, 4, 5]))
+        utts[0]["n"] = utts[0]["nchan"] - 1
+        ctx.count("generator:fewer-samples-than-channels")
     post_cfg = gen_post(r)
     if no_comp and r.random() < 0.6:
         # raw storage of float64 recordings riding on a large offset (a pressure / DC-coupled sensor: 1013.25 +- 0.01): the
